@@ -1,9 +1,11 @@
 package client
 
 import (
+	"log"
 	"time"
 
 	"github.com/jcmturner/gokrb5/v8/config"
+	"github.com/jcmturner/gokrb5/v8/keytab"
 	"github.com/jcmturner/gokrb5/v8/messages"
 	"github.com/jcmturner/gokrb5/v8/types"
 	"github.com/jcmturner/gokrb5/v8/zzverif"
@@ -311,4 +313,51 @@ func VH_C04_SendTCP() {
 	cl := NewWithPassword("u", "R", "p", c, DisablePAFXFAST(true))
 	cl.sendToKDC([]byte{1, 2, 3}, "R")
 	zzverif.Reach("returned")
+}
+
+
+// ---- C20: the client's diagnostics, log lines and errors never show its secrets ----------------------------
+
+// VH_C20_ClientDiagnostics: a client with a secret password or keytab key, a TGT session with a secret
+// session key and a cached service ticket with a secret session key; everything written by Print and
+// Diagnostics, every log line, and the errors of a login against an arbitrary KDC.
+func VH_C20_ClientDiagnostics() {
+	lg := log.New(zzverif.Sink{Label: "client-log"}, "", 0)
+	var cl *Client
+	if zzverif.Param("creds") == 0 {
+		cl = NewWithPassword("u", "R", string(zzverif.Secret(8)), vhConfig(), Logger(lg), DisablePAFXFAST(true))
+	} else {
+		kt := keytab.New()
+		kt.VHAddEntry("R", []string{"u"}, 18, 1, zzverif.Secret(32), time.Unix(1500000000, 0))
+		cl = NewWithKeytab("u", "R", kt, vhConfig(), Logger(lg), DisablePAFXFAST(true))
+	}
+	t0 := time.Unix(1600000000, 0)
+	t1 := t0.Add(10 * time.Hour)
+	cl.addSession(vhTicket("R", "krbtgt", "R"), messages.EncKDCRepPart{Key: types.EncryptionKey{KeyType: 18, KeyValue: zzverif.Secret(16)}, AuthTime: t0, EndTime: t1, RenewTill: t1})
+	cl.cache.addEntry(vhTicket("R", "HTTP", "h"), t0, t0, t1, t1, types.EncryptionKey{KeyType: 18, KeyValue: zzverif.Secret(16)})
+	cl.Print(zzverif.Sink{Label: "client-print"})
+	err := cl.Diagnostics(zzverif.Sink{Label: "client-diagnostics"})
+	zzverif.Public("client-diagnostics-error", err)
+	zzverif.Reach("printed")
+	if zzverif.Param("login") == 1 {
+		// the KDC: unreachable, answering with a KRB-ERROR, or with bytes that do not decode
+		for i := 0; i < 4; i++ {
+			switch zzverif.Param("kdc") {
+			case 0:
+				zzverif.ScriptStub(vhKDC, "err")
+			case 1:
+				zzverif.ScriptStub(vhKDC, "krberr", int32(zzverif.Param("code")), "R")
+			default:
+				zzverif.ScriptStub(vhKDC, "val")
+				zzverif.ScriptStub("ASRep).Unmarshal", "err")
+				zzverif.ScriptStub("TGSRep).Unmarshal", "err")
+				zzverif.ScriptStub("KRBError).Unmarshal", "err")
+			}
+		}
+		err = cl.Login()
+		zzverif.Public("client-login-error", err)
+		_, _, err = cl.GetServiceTicket("HTTP/other")
+		zzverif.Public("client-ticket-error", err)
+		zzverif.Reach("exchanged")
+	}
 }
